@@ -121,9 +121,75 @@ def _block(stmts, ind, name, ismon):
     return out
 
 
+def normalize(case):
+    """Old-style cases (a single top-level scenario given by flat fields) get the scenario-definition
+    form Dynamics.tla reads: sdefs (pre, termWhen, termSimWhen, termAfter, records, monitors,
+    hascompose, compose) and top."""
+    case.setdefault("impl", 0)
+    if "sdefs" not in case:
+        case["sdefs"] = [{
+            "pre": [], "termWhen": case["termWhen"], "termSimWhen": case["termSimWhen"],
+            "termAfter": case["termAfter"], "records": case["records"], "monitors": case["monitors"],
+            "hascompose": False, "compose": [],
+        }]
+        case["top"] = 1
+    return case
+
+
+def _sblock(stmts, ind, name, sname):
+    """compose-block statements: `do` invokes scenarios"""
+    pad = "    " * ind
+    out = []
+    for s in stmts:
+        k = s[0]
+        if k == "sdo":
+            out.append(f"{pad}do " + ", ".join(f"{sname(x)}()" for x in s[1]))
+        elif k == "sdofor":
+            out.append(f"{pad}do " + ", ".join(f"{sname(x)}()" for x in s[1]) + f" for {s[2]} {s[3]}")
+        elif k == "sdountil":
+            out.append(f"{pad}do " + ", ".join(f"{sname(x)}()" for x in s[1]) + f" until {_cond(s[2])}")
+        elif k == "if":
+            out.append(f"{pad}if {_cond(s[1])}:")
+            out += _sblock(s[2], ind + 1, name, sname) or [pad + "    pass"]
+            if s[3]:
+                out.append(f"{pad}else:")
+                out += _sblock(s[3], ind + 1, name, sname)
+        elif k == "while":
+            out.append(f"{pad}while {_cond(s[1])}:")
+            out += _sblock(s[2], ind + 1, name, sname)
+        elif k == "try":
+            out.append(f"{pad}try:")
+            out += _sblock(s[1], ind + 1, name, sname)
+            for c, h in s[2]:
+                out.append(f"{pad}interrupt when {_cond(c)}:")
+                out += _sblock(h, ind + 1, name, sname)
+        else:
+            out += _block([s], ind, name, True)
+    return out
+
+
+def _setup_lines(sd, name):
+    lines = []
+    for d in sd["monitors"]:
+        lines.append(f"require monitor {name(d)}()")
+    for kind, nm in sd["records"]:
+        kw = {"rec": "record", "init": "record initial", "final": "record final"}[kind]
+        lines.append(f'{kw} rec("{nm}") as {nm}')
+    for c in sd["termWhen"]:
+        lines.append(f"terminate when {_cond(c)}")
+    for c in sd["termSimWhen"]:
+        lines.append(f"terminate simulation when {_cond(c)}")
+    if sd["termAfter"]:
+        lines.append(f"terminate after {sd['termAfter'][0]} {sd['termAfter'][1]}")
+    return lines
+
+
 def to_scenic(case):
-    monset = set(case["monitors"])
+    normalize(case)
+    sdefs = case["sdefs"]
+    monset = set(m for sd in sdefs for m in sd["monitors"])
     name = lambda d: ("M" if d in monset else "D") + str(d)
+    sname = lambda s: f"S{s}"
     lines = ["from vlog import log, tv, rec, rnd, Act"]
     for d, df in enumerate(case["defs"], start=1):
         kw = "monitor" if d in monset else "behavior"
@@ -133,24 +199,28 @@ def to_scenic(case):
         for c in df["inv"]:
             lines.append(f"    invariant: {_cond(c)}")
         lines += _block(df["body"], 1, name, d in monset)
+    objs = []
     for i, d in enumerate(case["agents"]):
         var = "ego" if i == 0 else f"obj{i}"
         b = f", with behavior {name(d)}()" if d else ""
-        lines.append(
+        objs.append(
             f"{var} = new Object at ({10 * i}, 0, 0), with allowCollisions True, with requireVisible False{b}"
         )
-    for d in case["monitors"]:
-        lines.append(f"require monitor {name(d)}()")
-    for kind, nm in case["records"]:
-        kw = {"rec": "record", "init": "record initial", "final": "record final"}[kind]
-        lines.append(f'{kw} rec("{nm}") as {nm}')
-    for c in case["termWhen"]:
-        lines.append(f"terminate when {_cond(c)}")
-    for c in case["termSimWhen"]:
-        lines.append(f"terminate simulation when {_cond(c)}")
-    if case["termAfter"]:
-        lines.append(f"terminate after {case['termAfter'][0]} {case['termAfter'][1]}")
-    return "\n".join(lines) + "\n"
+    flat = len(sdefs) == 1 and not sdefs[0]["hascompose"] and not sdefs[0]["pre"]
+    if flat:
+        lines += objs + _setup_lines(sdefs[0], name)
+        return "\n".join(lines) + "\n"
+    for s, sd in enumerate(sdefs, start=1):
+        lines.append(f"scenario {sname(s)}():")
+        for c in sd["pre"]:
+            lines.append(f"    precondition: {_cond(c)}")
+        body = (objs if s == case["top"] else []) + _setup_lines(sd, name)
+        lines.append("    setup:")
+        lines += ["        " + x for x in (body or ["pass"])]
+        if sd["hascompose"]:
+            lines.append("    compose:")
+            lines += _sblock(sd["compose"], 2, name, sname)
+    return f"# TOP: {sname(case['top'])}\n" + "\n".join(lines) + "\n"
 
 
 # ------------------------------------------------------------------ running a case on the real code
@@ -224,7 +294,8 @@ def compile_case(text):
     if text not in _compiled:
         if len(_compiled) > 64:
             _compiled.clear()
-        scenario = scenic.scenarioFromString(text, mode2D=False)
+        top = text.split("\n", 1)[0][7:].strip() if text.startswith("# TOP: ") else None
+        scenario = scenic.scenarioFromString(text, scenario=top, mode2D=False)
         scene, _ = scenario.generate(maxIterations=5)
         _compiled[text] = (scenario, scene)
     return _compiled[text]
